@@ -162,6 +162,13 @@ def worker_main(args) -> int:
 
         _cfg.RUNTIME_TYPE_CHECK = True
         conf.append("runtime-type-check")
+    if args.shard % 4 == 0 and not getattr(mod, "NO_FOREIGN_HISTORY", False) and args.case is None:
+        # the other subsystems of the library are used first (vlib/foreign.py): whatever they leave behind in shared state
+        # must not show in the operations the property talks about
+        from vlib.foreign import foreign_history
+
+        ctx.extra["foreign_history"] = foreign_history(args.id, str(args.seed), args.shard)
+        conf.append("foreign-history")
     ctx.extra["library_configuration"] = "+".join(conf) or "defaults"
     if args.case is not None:
         ctx.only_case = json.loads(args.case)
